@@ -1,8 +1,11 @@
 /-
   C18 — Optional fields vanish quietly; required ones fail loudly and by name.
-  Property theorems about CM.Model.Stack (tied to /repo by the S-BAG / S-OPT correspondence).
+  Property theorems about CM.Model.Stack (tied to /repo by the S-BAG / S-OPT correspondence) and, at the node level,
+  about CM.Model.Bag: `GraphCompiler._validate_optionals` / `find_dependencies` (tied to /repo by S-NODE).
 -/
 import CM.Proofs.StackLemmas
+import CM.Proofs.BagDeps
+import CM.Proofs.BagTerm
 namespace CM.C18
 open CM
 
@@ -68,4 +71,137 @@ example :
     ((match sigOf [src, top ["c"]] with | .ok s => !s.dependencyError && (s.get "d").isSome | .error _ => false) &&
      (match sigOf [src, top []] with | .ok s => s.dependencyError | .error _ => false)) = true := by decide +kernel
 
+/-! ## Node level: `GraphCompiler` (`find_dependencies`, `_validate_optionals`, `get_node`) -/
+
+
+theorem validate_struct {b : Bag} {r : Except CompileErr (List BNode)} (h : b.validate = r)
+    (hr : r ≠ .error .duplicates ∧ r ≠ .error .graph ∧ r ≠ .error .key) :
+    hasDupStr (names b.inputs) = false ∧ hasDupStr (names b.outputs) = false ∧ multipleIncoming b.edges = false ∧
+    validateOutputs b (depsTable b.edges) b.outputs = r := by
+  unfold Bag.validate at h
+  split at h
+  · exact absurd h.symm hr.1
+  · rename_i h1
+    split at h
+    · exact absurd h.symm hr.2.1
+    · rename_i h2
+      split at h
+      · exact absurd h.symm hr.2.2
+      · simp only [Bool.or_eq_true, not_or, Bool.not_eq_true] at h1
+        exact ⟨h1.1, h1.2, by simpa using h2, h⟩
+
+/-- **Node level, which fields survive.**  When `GraphCompiler` accepts a bag, the available outputs are exactly the
+outputs all of whose leaves are inputs of the bag (no unreachable input), and every output that was left out is optional
+and lacks only optional nodes. -/
+theorem node_validate_ok (b : Bag) (hac : acyclicB b.edges = true) (avail : List BNode) (h : b.validate = .ok avail) :
+    (∀ o, o ∈ avail ↔ o ∈ b.outputs ∧ ∀ d, ¬ Unreach b o d) ∧
+    (∀ o ∈ b.outputs, o ∉ avail → Quiet b o ∧ ∃ d, Unreach b o d) := by
+  obtain ⟨_, _, hmi, hv⟩ := validate_struct h ⟨by simp, by simp, by simp⟩
+  have hs := multipleIncoming_false hmi
+  obtain ⟨h1, h2⟩ := validateOutputs_ok b hs hac b.outputs avail hv
+  have hmem : ∀ o, o ∈ avail ↔ o ∈ b.outputs ∧ ∀ d, ¬ Unreach b o d := by
+    intro o
+    rw [h1, List.mem_filter, missingOf_nil b hs hac]
+  refine ⟨hmem, fun o ho hna => ?_⟩
+  have hex : ∃ d, Unreach b o d := by
+    refine Classical.byContradiction fun hne => hna ((hmem o).2 ⟨ho, fun d hd => hne ⟨d, hd⟩⟩)
+  exact ⟨h2 o ho hex, hex⟩
+
+/-- **Node level, when the pipeline is unusable.**  On a structurally sound bag `GraphCompiler` raises `DependencyError`
+exactly when some output has an unreachable input and is not quietly droppable: it is not optional, or one of the nodes it
+lacks is not optional. -/
+theorem node_dependency_error_iff (b : Bag) (hac : acyclicB b.edges = true)
+    (hd : hasDupStr (names b.inputs) = false ∧ hasDupStr (names b.outputs) = false)
+    (hmi : multipleIncoming b.edges = false)
+    (hk : (b.inputs ++ b.outputs).any (fun n => !(edgeNodes b.edges).contains n) = false) :
+    b.validate = .error .dependency ↔ ∃ o ∈ b.outputs, (∃ d, Unreach b o d) ∧ ¬ Quiet b o := by
+  have hs := multipleIncoming_false hmi
+  rw [← validateOutputs_dependency b hs hac b.outputs]
+  unfold Bag.validate
+  rw [hk]
+  simp [hd.1, hd.2, hmi]
+
+/-- a field that was left out is reported as discarded (`FieldError`), never answered -/
+theorem node_left_out_field_error (b : Bag) (avail : List BNode) (o : BNode) (ho : o ∈ b.outputs)
+    (hsub : ∀ n ∈ avail, n ∈ b.outputs) (hnd : hasDupStr (names b.outputs) = false)
+    (hv : b.virt.mem o.name = false) (hna : o ∉ avail) : b.getNode avail o.name = .discarded := by
+  have hinj := names_inj_of_nodup (hasDupStr_false hnd)
+  have hnone : byName avail o.name = none := by
+    unfold byName
+    rw [List.find?_eq_none]
+    intro n hn hname
+    have : n = o := hinj n (hsub n hn) o ho (by simpa using hname)
+    exact hna (this ▸ hn)
+  unfold Bag.getNode
+  rw [hnone]
+  simp only [hv, Bool.false_eq_true, if_false]
+  have : (names b.outputs).contains o.name = true := by
+    simp only [names, List.contains_eq_mem, List.mem_map, decide_eq_true_eq]
+    exact ⟨o, ho, rfl⟩
+  rw [this]
+  rfl
+
+/-- leaving a field out changes no other field: an available output is resolved to its own node -/
+theorem node_available_field (b : Bag) (avail : List BNode) (o : BNode) (ho : o ∈ avail)
+    (hsub : ∀ n ∈ avail, n ∈ b.outputs) (hnd : hasDupStr (names b.outputs) = false) :
+    b.getNode avail o.name = .node o := by
+  have hinj := names_inj_of_nodup (hasDupStr_false hnd)
+  have : byName avail o.name = some o := by
+    unfold byName
+    cases hf : avail.find? (·.name == o.name) with
+    | none =>
+      have := List.find?_eq_none.1 hf o ho
+      simp at this
+    | some n =>
+      have hn := List.mem_of_find?_eq_some hf
+      have hname : n.name = o.name := by simpa using List.find?_some hf
+      rw [hinj n (hsub n hn) o (hsub o ho) hname]
+  unfold Bag.getNode
+  rw [this]
+
+/-- **The tie to what the field computes**: for an output with an incoming edge, in a bag with single incoming edges whose
+inputs are leaves, the nodes `GraphCompiler` reports as unreachable inputs are exactly the `missing` leaves of the term
+the output denotes (`BDen`, the semantics the gluing theorem of C02 is about). -/
+theorem node_unreachable_are_missing (b : Bag) (hs : SingleIncoming b.edges)
+    (hleaf : ∀ n ∈ b.inputs, ∀ e ∈ b.edges, e.out ≠ n) (o : BNode) (ho : ∃ e ∈ b.edges, e.out = o) (t : BTerm)
+    (hden : BDen b o t) (x : String) : x ∈ t.missingNames ↔ ∃ d, d.name = x ∧ Unreach b o d := by
+  rw [hden.missing_iff hs hleaf]
+  exact exists_congr fun d => and_congr_right fun _ => (unreach_iff_missAt ho d).symm
+
+/-- hence: an output survives validation exactly when its term mentions no missing input -/
+theorem node_available_iff_term_complete (b : Bag) (hac : acyclicB b.edges = true) (avail : List BNode)
+    (h : b.validate = .ok avail) (hleaf : ∀ n ∈ b.inputs, ∀ e ∈ b.edges, e.out ≠ n)
+    (o : BNode) (ho : o ∈ b.outputs) (hoe : ∃ e ∈ b.edges, e.out = o) (t : BTerm) (hden : BDen b o t) :
+    o ∈ avail ↔ t.missingNames = [] := by
+  obtain ⟨_, _, hmi, _⟩ := validate_struct h ⟨by simp, by simp, by simp⟩
+  have hs := multipleIncoming_false hmi
+  rw [(node_validate_ok b hac avail h).1 o]
+  constructor
+  · rintro ⟨_, hno⟩
+    cases hm : t.missingNames with
+    | nil => rfl
+    | cons x xs =>
+      obtain ⟨d, _, hd⟩ := (node_unreachable_are_missing b hs hleaf o hoe t hden x).1 (by rw [hm]; exact List.mem_cons_self ..)
+      exact absurd hd (hno d)
+  · intro hnil
+    refine ⟨ho, fun d hd => ?_⟩
+    have := (node_unreachable_are_missing b hs hleaf o hoe t hden d.name).2 ⟨d, rfl, hd⟩
+    rw [hnil] at this
+    cases this
+
+/-- non-vacuity (a test, not a theorem): `a = f(x)`, `c = h(m)` with `m` not an input.  With `c` and `m` optional the
+compiler keeps `a` and drops `c`; with `c` required, or `m` required, it raises `DependencyError`. -/
+def exBag (optional : List BNode) : Bag :=
+  let x : BNode := ⟨0, "x"⟩; let a : BNode := ⟨1, "a"⟩; let m : BNode := ⟨2, "m"⟩; let c : BNode := ⟨3, "c"⟩
+  { inputs := [x], outputs := [a, c],
+    edges := [{ edge := .function "f" [] [], ins := [x], out := a }, { edge := .function "h" [] [], ins := [m], out := c }],
+    virt := .empty, persistent := [], optional := optional, next := 4 }
+
+example :
+    (match (exBag [⟨3, "c"⟩, ⟨2, "m"⟩]).validate with | .ok av => av == [⟨1, "a"⟩] | .error _ => false) = true ∧
+    (match (exBag [⟨2, "m"⟩]).validate with | .error .dependency => true | _ => false) = true ∧
+    (match (exBag [⟨3, "c"⟩]).validate with | .error .dependency => true | _ => false) = true ∧
+    acyclicB (exBag []).edges = true ∧
+    ((exBag []).term 5 ⟨3, "c"⟩).map BTerm.missingNames = some ["m"] := by
+  refine ⟨by decide +kernel, by decide +kernel, by decide +kernel, by decide +kernel, by decide +kernel⟩
 end CM.C18
